@@ -74,7 +74,53 @@ class AProbCoverRng(pl.AProbCover):
         return pl.pool().ProbCover(random_state=seed, deltas=[0.5, 1.0])     # the real KMeans
 
 
-_RNG_VARIANTS = {"TypiClust[rng-clusterer]": ATypiClustRng, "Clue[rng-clusterer]": AClueRng, "ProbCover[rng-clusterer]": AProbCoverRng}
+class ADropQueryRng(pl.ADropQuery):
+    name = "DropQuery[rng-clusterer]"
+
+    def make(self, seed, sym=True, inputs=None, **kw):
+        if sym:
+            return pl.pool().DropQuery(random_state=seed, cluster_algo=make_rng_clusterer(), n_dropout_samples=3, dropout_rate=0.5)
+        return pl.pool().DropQuery(random_state=seed, n_dropout_samples=3, dropout_rate=0.5)     # the real KMeans
+
+
+class ASubSampling(pl.AUncertainty):
+    """SubSamplingWrapper around UncertaintySampling: the sub-sample is a draw of the wrapper's own generator"""
+
+    def __init__(self):
+        super().__init__("least_confident")
+        self.name = "SubSamplingWrapper[UncertaintySampling]"
+        self.units = ["skactiveml.pool._wrapper:SubSamplingWrapper.query"]
+
+    def make(self, seed, sym=True, inputs=None, **kw):
+        P = pl.pool()
+        inner = P.UncertaintySampling(method="least_confident", random_state=seed)
+        return P.SubSamplingWrapper(query_strategy=inner, max_candidates=2, random_state=seed)
+
+    def call(self, qs, s, b, sym, table=None, return_utilities=True):
+        return qs.query(s.X, s.y, clf=self.clf(sym, table, s.K), fit_clf=False, candidates=s.cand, batch_size=b,
+                        return_utilities=return_utilities)
+
+
+class AParallel(ASubSampling):
+    def __init__(self):
+        super().__init__()
+        self.name = "ParallelUtilityEstimationWrapper[UncertaintySampling]"
+        self.units = ["skactiveml.pool._wrapper:ParallelUtilityEstimationWrapper.query"]
+
+    def make(self, seed, sym=True, inputs=None, **kw):
+        P = pl.pool()
+        inner = P.UncertaintySampling(method="least_confident", random_state=seed)
+        return P.ParallelUtilityEstimationWrapper(query_strategy=inner, n_jobs=2, random_state=seed)
+
+    def call(self, qs, s, b, sym, table=None, return_utilities=True):
+        return qs.query(s.X, s.y, clf=self.clf(sym, table, s.K), fit_clf=False, candidates=s.cand, batch_size=1,
+                        return_utilities=return_utilities)
+
+
+_RNG_VARIANTS = {"TypiClust[rng-clusterer]": ATypiClustRng, "Clue[rng-clusterer]": AClueRng, "ProbCover[rng-clusterer]": AProbCoverRng,
+                 "DropQuery[rng-clusterer]": ADropQueryRng,
+                 "SubSamplingWrapper[UncertaintySampling]": ASubSampling,
+                 "ParallelUtilityEstimationWrapper[UncertaintySampling]": AParallel}
 
 
 def _adapter(name):
@@ -136,7 +182,7 @@ def replay_pool(inputs, label, strat, n, mode, b, rs="int"):
                               f"{np.asarray(o1b[0]).tolist()}, twin {np.asarray(o2[0]).tolist()}")
         return False, "not reproduced"
     datasets = [pl.real_scenario(inputs, n, mode)]
-    if strat.split("[")[0] in ("TypiClust", "Clue", "ProbCover"):
+    if strat.split("[")[0] in ("TypiClust", "Clue", "ProbCover", "DropQuery"):
         # data on which k-means has several optimal partitions (duplicated / equidistant points)
         for X in ([0.0, 0.0, 1.0, 1.0, 2.0, 2.0], [0.0, 1.0, 2.0, 3.0, 4.0, 5.0]):
             s2 = pl.Scenario()
@@ -153,8 +199,8 @@ def replay_pool(inputs, label, strat, n, mode, b, rs="int"):
             for g in range(12):
                 np.random.seed(g)
                 qs = a.make(seed, sym=False, inputs=inputs)
-                o = a.call(qs, s, min(b, len(s.cand_set)) if s is not datasets[0] else b, False, table=inputs.get("__clf__"))
-                o_rep = a.call(qs, s, min(b, len(s.cand_set)) if s is not datasets[0] else b, False, table=inputs.get("__clf__"))
+                o = a.call(qs, s, min(max(b, 2), len(s.cand_set)) if s is not datasets[0] else b, False, table=inputs.get("__clf__"))
+                o_rep = a.call(qs, s, min(max(b, 2), len(s.cand_set)) if s is not datasets[0] else b, False, table=inputs.get("__clf__"))
                 if label == "repeated_call_same_result" and not (np.array_equal(o[0], o_rep[0]) and np.array_equal(o[1], o_rep[1], equal_nan=True)):
                     return True, f"{strat}(random_state={seed}): the same call repeated gives {np.asarray(o[0]).tolist()} then {np.asarray(o_rep[0]).tolist()}"
                 outs.append((np.asarray(o[0]).tolist(), np.round(np.asarray(o[1], dtype=float), 12).tolist()))
@@ -338,7 +384,7 @@ def replay_clf(inputs, label, n, nq):
 
 # ----------------------------------------------------------------
 # (the plain "TypiClust" adapter uses an arbitrary-labels clusterer chosen per call: not a deterministic model)
-POOL = [n for n in pl.ADAPTERS if n.split("[")[0] not in ("TypiClust", "Clue", "ProbCover")] + list(_RNG_VARIANTS)
+POOL = [n for n in pl.ADAPTERS if n.split("[")[0] not in ("TypiClust", "Clue", "ProbCover", "DropQuery")] + list(_RNG_VARIANTS)
 
 
 def _cfg_pool(name):
@@ -348,18 +394,18 @@ def _cfg_pool(name):
         for mode in (("none",) if tier == "quick" else ("none", "idx", "rows")):
             if mode == "rows" and not a.supports_rows:
                 continue
-            slow = getattr(a, "slow", False) and not name.startswith("ProbCover")
+            slow = getattr(a, "slow", False) and not name.startswith(("ProbCover", "DropQuery"))
             for b in (((1,) if slow else (2,)) if tier == "quick" else (1, 2, 3)):
                 if slow and b > 1:
                     continue
-                out.append(dict(strat=name, n=3, mode=mode, b=b))
+                out.append(dict(strat=name, n=getattr(a, "n", None) or 3, mode=mode, b=b))
         if name in ("RandomSampling", "UncertaintySampling[least_confident]"):
             # random_state passed as a RandomState instance; explicit candidates incl. the fully labeled pool
             for mode in ("idx", "rows"):
-                out.append(dict(strat=name, n=3, mode=mode, b=2, rs="instance"))
-        elif not getattr(a, "slow", False) or name.startswith("ProbCover"):
+                out.append(dict(strat=name, n=getattr(a, "n", None) or 3, mode=mode, b=2, rs="instance"))
+        elif not getattr(a, "slow", False) or name.startswith(("ProbCover", "DropQuery")):
             # every strategy: a RandomState instance must not be consumed (the strategy works on its own copy)
-            out.append(dict(strat=name, n=3, mode="none", b=2, rs="instance"))
+            out.append(dict(strat=name, n=getattr(a, "n", None) or 3, mode="none", b=2, rs="instance"))
         return out
     return cfg
 
@@ -384,13 +430,12 @@ HARNESSES = [Harness(f"pool_twin[{name}]", sym_pool, replay_pool, _cfg_pool(name
     Harness("classifier_tie_breaking", sym_clf, replay_clf, lambda tier: [dict(n=2, nq=2)],
             ["skactiveml.base:SkactivemlClassifier.predict", "skactiveml.utils._selection:rand_argmin"], required_witnesses=("ran",)),
 ]
-BOUNDS = dict(quick="pool: n = 3, batch 2, candidates=None for the 25 adapter strategies (TypiClust / Clue / ProbCover with a clusterer that draws from the "
+BOUNDS = dict(quick="pool: n = 3, batch 2, candidates=None for the 25 adapter strategies (TypiClust / Clue / ProbCover / DropQuery with a clusterer that draws from the "
                     "generator it is given, global when random_state=None), random_state as int and as RandomState instance; the Monte-Carlo "
                     "branch of _conditional_expect; stream: all 7 managers and 7 strategies on 2 chunks (2+1); "
                     "ParzenWindowClassifier.predict tie-breaking; symbolic integer seed, two disjoint symbolic global streams",
               thorough="3 candidate modes, batch 1-3, 3 chunks",
-              outside="determinism of third-party estimators themselves; random_state=None (no claim); DropQuery and the strategies "
-                      "without adapter")
+              outside="determinism of third-party estimators themselves; random_state=None (no claim); the strategies without adapter")
 ASSUMPTIONS = [
     "two generators produce the same numbers iff equal seed terms and equal draw histories (uninterpreted functions)",
     "clusterer contract: labels / distances are draws from the generator passed as random_state, from the global one if None",
